@@ -78,8 +78,10 @@ def files(rc):
         # a local that must be renamed (strings -> strings2) next to a local that already has the fresh name
         extra_decl += ('\nfunc twoLocals(a string) string {\n\tstrings2 := "keep"\n\tstrings := a + "!"\n\treturn strings + strings2\n}\n'
                        '\nfunc innerFresh(a string) string {\n\tstrings := a + "?"\n\tout := strings\n\t{\n\t\tstrings2 := "in"\n\t\tout += strings2 + strings\n\t}\n\treturn out\n}\n')
-        extra_names = ['localStrings', 'twoLocals', 'innerFresh']
-        extra_probe = ', localStrings("ab"), twoLocals("p"), innerFresh("q")'
+        # the same inside a function literal: names that occur only there still count as taken
+        extra_decl += ('\nfunc litLocals(a string) string {\n\tf := func() string {\n\t\tstrings2 := "lit"\n\t\tstrings := a + "#"\n\t\treturn strings + strings2\n\t}\n\treturn f()\n}\n')
+        extra_names = ['localStrings', 'twoLocals', 'innerFresh', 'litLocals']
+        extra_probe = ', localStrings("ab"), twoLocals("p"), innerFresh("q"), litLocals("r")'
     elif ctx == 'same-base-two-imports':
         imp += '\thtemplate "html/template"\n\t"text/template"\n'
         extra_decl = ('func esc(s string) string {\n\tt := template.Must(template.New("t").Parse("{{.}}"))\n\tvar sb strings.Builder\n\tt.Execute(&sb, s)\n\treturn sb.String() + htemplate.HTMLEscapeString(s)\n}\n')
